@@ -123,6 +123,7 @@ pub fn budget(prop: &str, tier: &str) -> (u64, usize) {
 }
 
 enum Msg {
+    Started(usize, u32),
     Run(usize, u64),
     Violation(usize, String),
     KnownHit(usize, String, String),
@@ -217,6 +218,7 @@ pub fn check(prop: &str, tier: &str) -> i32 {
             .spawn()
             .expect("spawn worker");
         let out = child.stdout.take().expect("stdout");
+        let _ = tx.send(Msg::Started(wid, child.id()));
         std::thread::spawn(move || {
             let rd = BufReader::new(out);
             for line in rd.lines() {
@@ -247,6 +249,19 @@ pub fn check(prop: &str, tier: &str) -> i32 {
         });
     };
 
+    // watchdog: a worker that reports no progress for this long is blocked in something the
+    // simulator does not schedule (a real mutex, an endless loop without atomic operations, ...):
+    // that is a limitation of the harness (exit 2), never a VIOLATION
+    let stall_limit = std::time::Duration::from_secs(
+        std::env::var("VERIF_STALL_S")
+            .ok()
+            .and_then(|v| v.parse().ok())
+            .unwrap_or(240),
+    );
+    let mut pids: BTreeMap<usize, u32> = BTreeMap::new();
+    let mut progress: BTreeMap<usize, Instant> = BTreeMap::new();
+    let mut stalled: std::collections::BTreeSet<usize> = Default::default();
+    let mut stall_errors: Vec<String> = Vec::new();
     let mut running = 0usize;
     loop {
         while running < nworkers {
@@ -261,14 +276,42 @@ pub fn check(prop: &str, tier: &str) -> i32 {
         if running == 0 {
             break;
         }
-        match rx.recv().expect("channel") {
+        let msg = match rx.recv_timeout(std::time::Duration::from_secs(5)) {
+            Ok(m) => m,
+            Err(_) => {
+                for (w, t) in progress.iter() {
+                    if live.contains_key(w) && !stalled.contains(w) && t.elapsed() > stall_limit {
+                        stalled.insert(*w);
+                        let at = live.get(w).map(|e| e.1).unwrap_or(0);
+                        stall_errors.push(format!(
+                            "worker {w} made no progress for {} s while executing run {at}: a thread is blocked in something the simulator does not schedule; worker killed, its slice abandoned",
+                            stall_limit.as_secs()
+                        ));
+                        if let Some(pid) = pids.get(w) {
+                            let _ = Command::new("kill").arg("-9").arg(pid.to_string()).status();
+                        }
+                    }
+                }
+                continue;
+            }
+        };
+        match msg {
+            Msg::Started(w, pid) => {
+                pids.insert(w, pid);
+                progress.insert(w, Instant::now());
+            }
             Msg::Run(w, i) => {
+                progress.insert(w, Instant::now());
                 if let Some(e) = live.get_mut(&w) {
                     e.1 = i;
                 }
             }
-            Msg::Violation(_, p) => violations.push(p),
-            Msg::KnownHit(_, id, p) => {
+            Msg::Violation(w, p) => {
+                progress.insert(w, Instant::now());
+                violations.push(p)
+            }
+            Msg::KnownHit(w, id, p) => {
+                progress.insert(w, Instant::now());
                 known_files.entry(id).or_insert(p);
             }
             Msg::Done(w) => {
@@ -289,6 +332,9 @@ pub fn check(prop: &str, tier: &str) -> i32 {
                 running -= 1;
                 let (slice, last, done) = live.remove(&w).expect("live worker");
                 if done && ok {
+                    continue;
+                }
+                if stalled.contains(&w) {
                     continue;
                 }
                 // the worker died while executing run `last`
@@ -548,6 +594,7 @@ pub fn check(prop: &str, tier: &str) -> i32 {
         }
     }
 
+    harness_errors.extend(stall_errors.iter().cloned());
     let wall = t0.elapsed().as_secs_f64();
     write_evidence(
         prop,
